@@ -798,6 +798,13 @@ def fam_types(rng, with_bad=False, lite=False):
     half = len(body) // 2
     b.msg(body[:half], 'app')
     b.msg(body[half:], 'admin')
+    # enumerated fields that NO message, component, header or trailer uses (the shipped FIX44 keeps ExecTransType(20), Rule80A(47) like that),
+    # with numbers below and between those of used enumerated fields: the used ones must still get their own domains (missed seed C13-4)
+    used_enum = sorted(b.by[e[1]]['num'] for e in body if b.by[e[1]]['values'])
+    if used_enum:
+        lows = [t for t in range(11, used_enum[-1]) if t not in b.taken]
+        for t in rng.sample(lows, min(3, len(lows))):
+            b.field(rng.choice(['INT', 'CHAR', 'STRING']), 'set', tag=t, name='Unused%d' % t)
     return b.schema(('every field type, one domain kind each' if lite else 'all field types x domains') + (' incl. PATTERN/TENOR' if with_bad else ''))
 
 
